@@ -150,16 +150,8 @@ impl PhoneticSuggestion {
         selections: &mut HashMap<String, String, RandomState>,
         config: &Config,
     ) -> (Vec<Rank>, usize) {
-        let mut string = SplittedString::split(term, false);
+        let string = self.split_term(term, config);
         let mut typed_added = false;
-
-        // Convert preceding and trailing meta characters into Bengali(phonetic representation).
-        string.map(|p, t| (self.phonetic.convert(p), self.phonetic.convert(t)));
-
-        // Smart Quoting feature
-        if config.get_smart_quote() {
-            string = smart_quoter(string);
-        }
 
         self.suggestion_with_dict(&string, data);
 
@@ -198,9 +190,37 @@ impl PhoneticSuggestion {
         // Sort the suggestions.
         self.suggestions.sort();
 
-        let selection = self.get_prev_selection(&string, data, selections);
+        let mut selection = self.get_prev_selection(&string, data, selections);
+
+        // The typed English text keeps its meta characters as they were typed, so a
+        // selection of it is looked up with them instead of the converted ones.
+        if selection == 0 {
+            if let Some(item) = selections.get(string.word()) {
+                let typed = SplittedString::split(term, false);
+                let item = format!("{}{}{}", typed.preceding(), item, typed.trailing());
+                if let Some(index) = self.suggestions.iter().position(|i| *i.to_string() == item) {
+                    selection = index;
+                }
+            }
+        }
 
         (self.suggestions.clone(), selection)
+    }
+
+    /// Split the `term` into the word and its preceding and trailing meta characters,
+    /// which are converted the way they are shown in the suggestions.
+    pub(crate) fn split_term<'a>(&self, term: &'a str, config: &Config) -> SplittedString<'a> {
+        let mut string = SplittedString::split(term, false);
+
+        // Convert preceding and trailing meta characters into Bengali(phonetic representation).
+        string.map(|p, t| (self.phonetic.convert(p), self.phonetic.convert(t)));
+
+        // Smart Quoting feature
+        if config.get_smart_quote() {
+            string = smart_quoter(string);
+        }
+
+        string
     }
 
     /// Make suggestions from the given `splitted_string`. This will include dictionary and auto-correct suggestion.
